@@ -340,9 +340,13 @@ func guard(s *spec, in any, args []arg) string {
 	switch s.Name {
 	case "jn", "yn":
 		// math.Jn/Yn legitimately take time proportional to the order
-		if len(args) > 0 && args[0].F == "" {
-			if f, ok := numOf(args[0].value()); ok && !(math.Abs(f) < 20000) {
-				return "bessel-order"
+		// (both arguments are bounded so that a swapped-argument bug shows up
+		// as a wrong value instead of a shard timeout)
+		for _, a := range args {
+			if a.F == "" {
+				if f, ok := numOf(a.value()); ok && !(math.Abs(f) < 20000) {
+					return "bessel-order"
+				}
 			}
 		}
 	}
